@@ -6,3 +6,61 @@ impl vstd::std_specs::cmp::PartialEqSpecImpl for crate::work::BuildState {
     open spec fn eq_spec(&self, other: &crate::work::BuildState) -> bool { *self == *other }
 }
 }
+
+// ---- R7-style shim: std::collections::HashSet as used by Work::ready_dependents ------------
+// The wrapper holds the real std HashSet; `insert` delegates to it; `into_iter` yields the real
+// iteration order (arbitrary): its contract only says "each element once".  Trusted model.
+pub mod vx_set {
+    use vstd::prelude::*;
+    use vstd::std_specs::iter::IteratorSpec;
+    verus! {
+    #[verifier::external_body]
+    #[verifier::reject_recursive_types(T)]
+    pub struct HashSet<T> { inner: std::collections::HashSet<T> }
+    impl<T: std::hash::Hash + Eq> HashSet<T> {
+        pub uninterp spec fn view(&self) -> Set<T>;
+        #[verifier::external_body]
+        pub fn new() -> (r: Self) ensures r@ == Set::<T>::empty() { HashSet { inner: std::collections::HashSet::new() } }
+        #[verifier::external_body]
+        pub fn insert(&mut self, v: T) -> (r: bool) ensures final(self)@ == old(self)@.insert(v) { self.inner.insert(v) }
+        /// consumed as `for id in set`: R12 turns that into IntoIterator::into_iter(set)
+        #[verifier::external_body]
+        pub fn vx_into_vec(self) -> (r: Vec<T>)
+            ensures forall|x: T| #[trigger] r@.contains(x) == self@.contains(x),
+                    forall|i: int, j: int| 0 <= i < j < r@.len() ==> r@[i] != r@[j]
+        { self.inner.into_iter().collect() }
+    }
+    impl<T: std::hash::Hash + Eq> IntoIterator for HashSet<T> {
+        type Item = T;
+        type IntoIter = std::vec::IntoIter<T>;
+        fn into_iter(self) -> (r: std::vec::IntoIter<T>)
+            ensures r.obeys_prophetic_iter_laws(), r.decrease().is_some(),
+                forall|x: T| #[trigger] r.remaining().contains(x) == self@.contains(x),
+                forall|j: int| 0 <= j < r.remaining().len() ==> self@.contains(#[trigger] r.remaining()[j]),
+                forall|i: int, j: int| 0 <= i < j < r.remaining().len() ==> r.remaining()[i] != r.remaining()[j],
+        {
+            let v = self.vx_into_vec();
+            proof { assert forall|j: int| 0 <= j < v@.len() implies self@.contains(#[trigger] v@[j]) by { assert(v@.contains(v@[j])); } }
+            v.into_iter()
+        }
+    }
+    }
+}
+#[verifier::external]
+impl std::hash::Hash for crate::graph::BuildId {
+    fn hash<H: std::hash::Hasher>(&self, state: &mut H) { self.0.hash(state) }
+}
+
+// ---- abstract view of task::Runner (trusted boundary: threads + channel) ---------------------
+pub mod rs {
+    use vstd::prelude::*;
+    use crate::graph::BuildId;
+    use crate::task::Runner;
+    verus! {
+    /// builds whose command has been started by this runner (ever)
+    pub uninterp spec fn started(r: Runner) -> Set<BuildId>;
+    /// builds whose command is executing now (started, completion not yet returned by wait)
+    pub uninterp spec fn live(r: Runner) -> Set<BuildId>;
+    pub uninterp spec fn par(r: Runner) -> nat;
+    }
+}
